@@ -108,6 +108,11 @@ func Harness_C17_acs() {
 			sessionCookie = c
 		}
 	}
+	// frame: the step touches no cookie but the session cookie and the tracking cookie RelayState names, so the
+	// browser's other pending flows stay pending (every later step starts from a jar that still holds their cookies)
+	for _, c := range set {
+		verifAssert(verifOr(c.Name == "token", verifAnd(relayState != "", c.Name == "saml_"+relayState)), "C17/acs/other-cookies-untouched")
+	}
 	if sessionCookie == nil {
 		verifReach("refused")
 		verifAssert(w.Status == http.StatusForbidden, "C17/acs/refusal-is-an-error-reply")
